@@ -500,6 +500,23 @@ fn proto(api: &Api, input: &str, out: &mut Out, kv: &Kv) {
             if written != bytes {
                 return Err(("backends".into(), format!("fixed-slice back end wrote {} instead of {}", hex(&written), hex(&bytes))));
             }
+            // ... on a slice of every capacity: exactly the message fits; on a smaller slice the writer must say so (it has
+            // no way to be right) - all capacities up to 48 octets, then the last ones and the middle
+            let len = bytes.len();
+            let caps = (0..=len.min(48)).chain([len / 2, len.saturating_sub(2), len.saturating_sub(1), len]).filter(|c| *c <= len);
+            for cap in caps {
+                let mut buf = vec![0u8; cap];
+                let mut ws = ProtobufWriter::from(&mut buf[..]);
+                let res = (api.pwrite)(ti, v, &mut ws).expect("constructible");
+                let got = ws.as_bytes().to_vec();
+                match res {
+                    Ok(()) if got == bytes => {}
+                    Ok(()) => return Err(("backends".into(), format!(
+                        "fixed-slice back end reports success on a slice of {} octets with {} where the message is {} ({} octets)", cap, hex(&got), hex(&bytes), len))),
+                    Err(_) if cap < len => {}
+                    Err(e) => return Err(("backends".into(), format!("fixed-slice writer failed on a slice that fits exactly ({} octets): {:?}", len, e))),
+                }
+            }
             let mut r = ProtobufReader::from(&bytes[..]);
             match (api.pread)(ti, &mut r) {
                 Err(e) => Err(("read".into(), format!("reader failed on the writer's bytes {}: {:?}", hex(&bytes), e))),
